@@ -101,7 +101,9 @@ def build_harness(name, kind="dbg", extra_flags=(), libs=()):
     """Compile harness/<name>.cpp against the freshly built library; returns the binary path."""
     lib = build_lib(kind)
     src = VERIF / "harness" / (name + ".cpp")
-    outdir = BUILD / kind / "h"
+    # one directory of harness binaries per verif tree: several trees (worktrees of contributors) may
+    # share one library build directory through BFL_BUILD_DIR but have different harness sources
+    outdir = BUILD / kind / ("h-" + hashlib.sha256(str(VERIF).encode()).hexdigest()[:8])
     outdir.mkdir(parents=True, exist_ok=True)
     binary = outdir / name
     dep = outdir / (name + ".d")
@@ -507,7 +509,8 @@ def audit(prop):
                 mm = re.search(r"depends on axioms: \[(.*?)\]", ax_txt, re.S)
                 axioms = [a.strip() for a in mm.group(1).replace("\n", " ").split(",")] if mm else None
             ob["axioms"] = axioms
-            if axioms is None or "error" in m.group(1) or "unknown" in m.group(1).split(":")[0]:
+            bad_elab = re.search(r"(^|\n)\S*:\d+:\d+: error|unknown (constant|identifier)", m.group(1)) is not None
+            if axioms is None or bad_elab:
                 ob["why"] = "could not read axioms / statement"
             elif not set(axioms) <= STD_AXIOMS:
                 ob["why"] = "non-standard axioms: %s" % sorted(set(axioms) - STD_AXIOMS)
